@@ -78,7 +78,7 @@ def crossing(role, kind, park):
         sub.clear_to_send_timeout = 2.0
         if not pair.barrier():
             raise InfraError("session not usable before the re-exchange")
-        gate.gate.clear()
+        gate.close_gate()
         peer._send_message(message(kind, sub_ch.chanid))       # in flight: the subject has not read it
         mark = len(tap.tx)
         sub._send_kex_init()
@@ -174,7 +174,7 @@ def held_rekey(role, api, inflight):
             return orig_sum(m)
 
         sub._send_user_message = send_user_message
-        gate.gate.clear()
+        gate.close_gate()
         if inflight == "window":
             peer._send_message(L.msg(93, sub_ch.chanid, 4096))
         else:
@@ -339,6 +339,87 @@ def gated_send(role):
         pair.close()
 
 
+def fragmented_inbound(role, rng):
+    """The subject's own send counter reaches the rekey threshold (a user-thread send), so it starts a re-exchange;
+    a CHANNEL_DATA of the peer is in flight and reaches the subject in fragments smaller than one cipher block with
+    idle socket timeouts in between, ahead of the peer's kex packets."""
+    from tests._loop import LoopSocket
+
+    gate, other = L.frag_gate_socket(), LoopSocket()
+    gate.link(other)
+    socks = (other, gate) if role == "server" else (gate, other)
+    pair = L.Pair(role, "Transport", True, socks=socks)
+    sub, peer = pair.subject, pair.peer
+    out = {"role": role}
+    try:
+        ch = pair.tc.open_session(timeout=30)
+        sch = pair.ts.accept(30)
+        if sch is None:
+            raise InfraError("accept timed out")
+        sub_ch, peer_ch = (sch, ch) if role == "server" else (ch, sch)
+        tap = L.Tap(sub)
+        sub.clear_to_send_timeout = 5.0
+        if not pair.barrier():
+            raise InfraError("session not usable before the re-exchange")
+        gate.close_gate()                                   # the subject reads nothing from now on
+        payload = rng.randbytes(rng.randrange(20, 200))
+        peer_ch.sendall(payload)                            # in flight
+        mark = len(tap.tx)
+        pk = sub.packetizer
+        pk.REKEY_PACKETS = pk._Packetizer__sent_packets + 1  # the next packet we send reaches the threshold
+        sub_ch.sendall(b"trigger")                          # send-side trigger (user thread = this thread)
+        pk.REKEY_PACKETS = 2 ** 29
+        out["need_rekey_after_send"] = bool(pk.need_rekey())
+        L.wait_until(lambda: any(r[0] == 20 for r in tap.tx[mark:]) or not sub.is_alive(), 30,
+                     "the subject to start the re-exchange")
+        cut1 = rng.randrange(1, 8)
+        cut2 = rng.randrange(1, 8)
+        gate.script = [cut1, "t", cut2, "t", "t"]           # fragments below one cipher block, idle gaps
+        out["fragments"] = [cut1, "t", cut2, "t", "t"]
+        gate.gate.set()
+
+        def settled():
+            return (not sub.is_alive() or not peer.is_alive()) or (
+                not sub.in_kex and not peer.in_kex and sub.clear_to_send.is_set() and peer.clear_to_send.is_set()
+                and any(r[0] == 21 for r in tap.tx[mark:]))
+
+        t0 = time.time()
+        while not settled() and time.time() - t0 < 30:
+            time.sleep(0.01)
+        for t in (sub, peer):
+            if not t.is_active():
+                t.join(10)
+        types = [r[0] for r in tap.tx[mark:]]
+        i20 = types.index(20) if 20 in types else len(types)
+        window = []
+        for t in types[i20 + 1:]:
+            if t == 21:
+                break
+            window.append(t)
+        out["window"] = window
+        out["script_used"] = list(gate.delivered)
+        out["first_scripted_read_asked_for"] = gate.asked[0] if gate.asked else None
+        out["completed"] = bool(21 in types and sub.is_active() and peer.is_active() and settled())
+        out["sub_exc"] = repr(L.root_exc(sub.saved_exception)) if sub.saved_exception is not None else "None"
+        out["sub_site"] = exc_site(L.root_exc(sub.saved_exception)) if sub.saved_exception is not None else "-"
+        out["peer_exc"] = repr(peer.saved_exception)
+        got = b""
+        if out["completed"]:
+            sub_ch.settimeout(20)
+            try:
+                while len(got) < len(payload):
+                    x = sub_ch.recv(4096)
+                    if not x:
+                        break
+                    got += x
+            except Exception:
+                pass
+        out["delivered"] = got == payload
+        return out
+    finally:
+        pair.close()
+
+
 def run(ctx):
     L.quiet_logging()
     L.stub_gss()
@@ -451,6 +532,28 @@ def run(ctx):
             if model_in != bool(offending):
                 ctx.disagree("send gate: user data inside the kex window", o, {"wire": wire}, {"window": o["window"]})
 
+    # ---------------- send-side threshold trigger while an inbound packet arrives in fragments with idle gaps
+    for role in ("server", "client"):
+        o = fragmented_inbound(role, ctx.rng)
+        ctx.case(("fragmented-inbound", role, tuple(o.get("fragments", []))), True)
+        ctx.dist("fragmented-inbound:" + role)
+        ctx.sample(o, limit=14)
+        offending = [t for t in o["window"] if t >= 50]
+        if not o["need_rekey_after_send"]:
+            ctx.broken.append({"kind": "harness", "what": "fragmented-inbound", "detail": "send-side trigger did not fire"})
+        if "t" not in o["script_used"] or not any(isinstance(x, int) for x in o["script_used"]):
+            ctx.broken.append({"kind": "harness", "what": "fragmented-inbound", "detail": "fragments not delivered as scripted: %r" % (o["script_used"],)})
+        if not o.get("first_scripted_read_asked_for") or o["first_scripted_read_asked_for"] > 32:
+            ctx.broken.append({"kind": "harness", "what": "fragmented-inbound",
+                               "detail": "the fragments did not hit the packet header read: %r" % (o.get("first_scripted_read_asked_for"),)})
+        if offending:
+            ctx.fail("reply-during-kex:data:fragmented-inbound", o, "types %r between KEXINIT and NEWKEYS" % offending)
+        elif not o["completed"]:
+            ctx.fail("re-exchange-fails:fragmented-inbound-with-send-trigger", o,
+                     "subject %s (%s) peer %s" % (o["sub_exc"], o["sub_site"], o["peer_exc"]))
+        elif not o["delivered"]:
+            ctx.fail("in-flight-message-lost:fragmented-inbound-with-send-trigger", o, "channel data not delivered intact")
+
     reqs = []
     for (role, kind, park), o in zip(jobs, results):
         reqs.append("run start in:%s %spk kr pn" % (kind, "user:94 " if park else ""))
@@ -508,7 +611,9 @@ META = {
               "step granularity (SendGate model: wait / acquire clear_to_send_lock / re-check is_set / send / release "
               "against acquire / clear / release / KEXINIT … NEWKEYS / set): for every interleaving and any number of "
               "user messages each one is written before our KEXINIT or after our NEWKEYS (send_gate_window_clean), "
-              "with a witness for the variant without the re-check; the step structure is read from the AST of "
+              "with a witness for the variant without the re-check; a send-side threshold trigger with an inbound packet "
+              "arriving in sub-block fragments and idle gaps is driven on the real code (the read-side theorem for "
+              "it, NeedRekeyException loses no bytes, is C10's); the step structure is read from the AST of "
               "_send_user_message and _send_kex_init, and the critical interleaving is forced on the real code."),
     "note": ("Missing for a full claim: the defects themselves (repair = queue replies during the exchange, not a "
              "small patch); the model is a one-transport abstraction (message kinds × reply mechanism), tied by one "
